@@ -556,7 +556,7 @@ def run(ctx):
     # 2. (export, export-with-deviation-D4) spec -> code: every case, with the prediction of the specification and
     #    of the specification + deviation
     # 3. (simulate) beyond the exhaustive bound: random behaviours of the same machine (longer chains, more shapes)
-    with ThreadPoolExecutor(5) as ex:
+    with ThreadPoolExecutor(6) as ex:
         f_sim = ex.submit(ctx.tlc, 'PathsExport',
                           cfg(CONSTANTS['simulate'], invariants=INVARIANTS + ['Export'], may_reject=False), workers=1,
                           simulate='num=%d' % (700 if quick else 10000), depth=40, seed=ctx.seed + 1,
@@ -564,6 +564,9 @@ def run(ctx):
         f_mc = ex.submit(ctx.tlc, 'Paths', cfg(consts), coverage=True, name='mc', workers=8, heap='4g')
         f_dv = ex.submit(ctx.tlc, 'Paths', cfg(consts, [DEVIATION], ['WriteRolesNeverReachHome']), workers=2,
                          name='mc-with-deviation-D4', count=False, must_hold=False, heap='3g')
+        f_d2 = ex.submit(ctx.tlc, 'Paths', cfg(consts, ['ValidatedOncePerSymbol'], ['WriteRolesNeverReachHome']),
+                         workers=2, name='mc-with-deviation-ValidatedOncePerSymbol', count=False, must_hold=False,
+                         heap='3g')
         f_id = ex.submit(ctx.tlc, 'PathsExport', cfg(consts, invariants=['Export']), workers=1, name='export',
                          count=False, timeout=3000, heap='3g')
         f_de = ex.submit(ctx.tlc, 'PathsExport', cfg(consts, [DEVIATION], invariants=['Export']), workers=1,
@@ -574,6 +577,10 @@ def run(ctx):
     if dv.violated != 'WriteRolesNeverReachHome':
         raise core.MachineryFailure('the model with deviation %s should violate WriteRolesNeverReachHome, got %s'
                                     % (DEVIATION, dv.violated))
+    ctx.cov['negative_controls_rejected'] += 1
+    if f_d2.result().violated != 'WriteRolesNeverReachHome':
+        raise core.MachineryFailure('the model with deviation ValidatedOncePerSymbol should violate '
+                                    'WriteRolesNeverReachHome, got %s' % f_d2.result().violated)
     ctx.cov['negative_controls_rejected'] += 1
     ideal, dev = ideal.printed_json('CASE'), dev.printed_json('CASE')
     tasks = build_tasks(ideal, dev)
